@@ -119,12 +119,20 @@ theorem writer_step_abs (s : WStep) (m : Threads.Msg) (hw : s.wellFormed = true)
 /-! ### non-vacuity -/
 
 /-- a concrete poller run: one trip (no reply from chrony, within grace; time-out at the mailbox), then a reply
-    whose send fails -/
-example : inputsAt (fun i => ([.ext "Instant" [.unit], .enumv "Some" [.ext "Instant" [.unit]]] ++
-      (PIter.mk (.noReply .unit true) .timeout).inputs ++ (PEnd.sendFailed (.noReply .unit false)).inputs).getD i .unit)
-    0 (pollerStartInputs .unit .unit ++ loopInputs 1 (fun _ => ⟨.noReply .unit true, .timeout⟩)
-      (.sendFailed (.noReply .unit false))) := by
-  simp [inputsAt, pollerStartInputs, loopInputs, PIter.inputs, PEnd.inputs, Poll.inputs, RecvT.value]
+    whose send fails: the hypotheses of `poller_exit_eq` are satisfiable, and it panics -/
+def demoPollerInputs : List Value :=
+  pollerStartInputs .unit .unit ++ (PIter.mk (.noReply .unit true) .timeout).inputs ++
+    (PEnd.sendFailed (.noReply .unit false)).inputs
+
+example : runFuel 201 (Code.ctxWith 0 DictThreads.ext [] (fun i => demoPollerInputs.getD i .unit)) "chrony_poller::run"
+      .unit [contextValue .poller [.main, .poller, .writer], phcValue none] = .panic := by
+  refine poller_exit_eq [.main, .poller, .writer] none 1 0 (fun _ => ⟨.noReply .unit true, .timeout⟩)
+    (fun _ _ => rfl) (fun _ _ => trivial) (.sendFailed (.noReply .unit false)) trivial ?_ 0 _ .unit .unit ?_
+  · intro p hp
+    cases hp
+    rfl
+  · simp [inputsAt, demoPollerInputs, pollerStartInputs, loopInputs, PIter.inputs, PEnd.inputs, Poll.inputs,
+      RecvT.value, List.range_succ]
 
 example : ThreadsProg.pollerNexts .start (ThreadsProg.pollerProg [⟨true, none⟩] (PEnd.sendFailed (.noReply .unit false)).abs)
     = some (.exiting .panic) := by decide
